@@ -301,6 +301,27 @@ def check(case: dict, ctx: Ctx) -> None:
                 o2.value is not None and o.value is not None and [t.name for t in o2.value] == [t.name for t in o.value]
             )
             require(o2.ok and same, "find_wrapping:cache-differs", f"{host}: second identical query differs for {target}")
+    # ---- find_wrapping again from the START state of every other container type, after the host's states have been
+    # queried: answers are cached per match state, and a cache entry written while answering one state must not
+    # change what another state answers
+    for w in rs.node_names:
+        if rs.leaf[w] or w == host:
+            continue
+        mw = lib.nodes[w].content_match
+        for target in rs.node_names:
+            nev += 1
+            ell = _min_wrapping(rs, rs.content[w], target)
+            o = call("find_wrapping", mw.find_wrapping, lib.nodes[target])
+            require(o.ok, "find_wrapping:raised", f"{w} start, target {target}: {o.exc!r}")
+            if o.value is None:
+                require(ell is None, "find_wrapping:missed", f"{w} start (after the queries on {host}): no wrapping for {target}, reference finds one of length {ell}")
+            else:
+                chain = [t.name for t in o.value]
+                why = _chain_ok(rs, rs.content[w], chain, target)
+                require(why is None, "find_wrapping:bad-chain", f"{w} start (after the queries on {host}): chain {chain} for {target}: {why}")
+                require(ell is not None and len(chain) == ell, "find_wrapping:not-shortest", f"{w} start (after the queries on {host}): chain {chain} for {target}, shortest has length {ell}")
+                if chain:
+                    ctx.label("wrap:other-type-after-host")
     # ---- create_and_fill
     content_p = case["fill_content"]
     nev += 1
